@@ -4,7 +4,7 @@
    version really written for the key (one-key model, Hybrid/Engine.v; an index entry whose bytes fail verification is
    a miss: [on_disk]). *)
 From Coq Require Import List NArith Bool.
-From FV Require Import Disk.Codec Disk.Fault Disk.BlobIndex Disk.BlobIndexProofs Hybrid.Engine Hybrid.EngineInv Hybrid.EngineThms Hybrid.EngineVers.
+From FV Require Import Disk.Codec Disk.Fault Disk.BlobIndex Disk.BlobIndexProofs Hybrid.Engine Hybrid.EngineInv Hybrid.EngineThms Hybrid.EngineVers Hybrid.RecoverDmg.
 Import ListNotations.
 Open Scope N_scope.
 
@@ -82,6 +82,21 @@ Theorem c03_recovery_serves_written_only : forall c l vis v,
   lookup_now (do_recover c (krun c init_k l) vis) = Some v -> In v (ksubs (krun c init_k l)).
 Proof. exact recovery_serves_written. Qed.
 Print Assumptions c03_recovery_serves_written_only.
+
+(* the tombstone log carries no checksum: whatever its pages parse to - [tl]: any list of sequences, spurious tombstones
+   included, logged ones missing - and whatever part of the blocks the scan reaches, a recovered store answers a miss or a
+   version really written for the key (Hybrid/RecoverDmg.v) *)
+Theorem c03_damaged_tombstone_log_serves_written_only : forall c l vis tl v,
+  lookup_now (do_recover_dmg c (krun c init_k l) vis tl) = Some v -> In v (ksubs (krun c init_k l)).
+Proof. exact recovery_dmg_serves_written. Qed.
+Print Assumptions c03_damaged_tombstone_log_serves_written_only.
+
+(* a spurious tombstone can only hide the key *)
+Theorem c03_spurious_tombstone_is_a_miss : forall c s vis sq,
+  (forall v sq' b, In (v, sq', b) (kdisk s) -> sq' <= sq) ->
+  lookup_now (do_recover_dmg c s vis [sq]) = None.
+Proof. exact spurious_tombstone_is_a_miss. Qed.
+Print Assumptions c03_spurious_tombstone_is_a_miss.
 
 (* an index entry whose bytes are gone or fail verification is a miss, not an older copy *)
 Theorem c03_unverifiable_copy_is_a_miss : forall s sq v b,
